@@ -133,3 +133,98 @@ def dummy_children(e):
 
 def describe(e):
     return dict(t=[float(v) for v in e.time_interval], x=[float(v) for v in e.space_interval])
+
+
+class StubElem:
+    """Element stub (time interval, space interval, piece) for pairs that need not be leaves of one mesh."""
+    def __init__(self, t, x, gamma):
+        from src.mesh import Vertex
+        self.time_interval, self.space_interval, self.gamma_space = t, x, gamma
+        self.h_t, self.h_x = t[1] - t[0], x[1] - x[0]
+        self.vertices = [Vertex(t[0], x[0], -1), Vertex(t[0], x[1], -1), Vertex(t[1], x[1], -1), Vertex(t[1], x[0], -1)]
+
+    def __repr__(self):
+        return 'Elem(t=%s, x=%s)' % (self.time_interval, self.space_interval)
+
+
+def dyadic_point(gamma, k, num, j):
+    """start_k + (start_{k+1} - start_k) * num / 2^j computed by descending bisection from the piece ends, i.e. with
+    the very floating-point operations the mesh performs (so that shared end points are bit-identical)."""
+    lo, hi = gamma.pw_start[k], gamma.pw_start[k + 1]
+    if num == 0:
+        return float(lo)
+    if num == 2**j:
+        return float(hi)
+    while num % 2 == 0:
+        num //= 2
+        j -= 1
+    for bit in range(j - 1, -1, -1):
+        mid = (lo + hi) / 2
+        if (num >> bit) & 1:
+            if bit == 0:
+                return float(mid)
+            lo = mid
+        else:
+            hi = mid
+    return float((lo + hi) / 2)
+
+
+def addr_interval(gamma, addr):
+    k, j, m = addr
+    return (dyadic_point(gamma, k, m, j), dyadic_point(gamma, k, m + 1, j))
+
+
+def move_addr(gamma, addr, how):
+    """Image of a dyadic sub-interval of a piece under a symmetry of the curve (quarter turn / reflection)."""
+    k, j, m = addr
+    K = len(gamma.pw_gamma)
+    if how == 'reflect':
+        return (K - 1 - k, j, 2**j - 1 - m)
+    if K == 1:                      # circle: quarter turn = shift by a quarter of the single piece
+        if j < 2:
+            return None
+        return (0, j, (m + 2**(j - 2)) % 2**j)
+    return ((k + 1) % K, j, m)
+
+
+def seam_and_corner_pairs(rng, gamma, n, with_addr=False):
+    """Pairs of (possibly non-leaf) elements in the configurations the panel recursion treats specially: touching
+    through the closing seam with size ratios up to 1:16 in both orders, touching at a break point (corner),
+    nested, with equal / overlapping / touching / separated time intervals.  Elements are dyadic sub-intervals of
+    pieces; only pairs that can occur as (leaf, leaf) or (leaf, child/quarter) of ONE reachable mesh are kept."""
+    out = []
+    K = len(gamma.pw_gamma)
+    closed = bool(gamma.closed)
+    times = [(0.0, 1.0), (0.0, 0.5), (0.5, 1.0), (0.25, 0.5), (0.5, 0.75), (0.0, 0.25), (0.75, 1.0)]
+    base = 2 if (closed and K == 1) else 0   # one-piece closed curve: at least 4 elements around it
+    for _ in range(n):
+        i, j = base + rng.randint(0, 4), base + rng.randint(0, 4)
+        kind = rng.choice(['seam', 'seam', 'corner', 'nested'] if closed else ['corner', 'nested'])
+        if kind == 'seam':
+            A, B = (0, i, 0), (K - 1, j, 2**j - 1)
+        elif kind == 'corner' and K > 1:
+            k = rng.randrange(1, K)
+            A, B = (k - 1, i, 2**i - 1), (k, j, 0)
+        elif kind == 'corner':
+            k4 = rng.randrange(1, 4)   # circle: an interior multiple of a quarter
+            A, B = (0, i, k4 * 2**(i - 2) - 1), (0, j, k4 * 2**(j - 2))
+        else:
+            kind = 'nested'
+            k = rng.randrange(0, K)
+            ia = base + min(i - base, 2)
+            ma = rng.randrange(2**ia)
+            jb = ia + (j - base)
+            A, B = (k, ia, ma), (k, jb, ma * 2**(jb - ia) + rng.randrange(2**(jb - ia)))
+        a, b = addr_interval(gamma, A), addr_interval(gamma, B)
+        ta, tb = rng.choice(times), rng.choice(times)
+        t_overlap = max(ta[0], tb[0]) < min(ta[1], tb[1])
+        x_overlap = max(a[0], b[0]) < min(a[1], b[1])
+        ratio = max((a[1] - a[0]) / (b[1] - b[0]), (b[1] - b[0]) / (a[1] - a[0]))
+        if (t_overlap and x_overlap) or (t_overlap and ratio > 4.0001):
+            continue
+        e1, e2 = StubElem(ta, a, gamma.pw_gamma[A[0]]), StubElem(tb, b, gamma.pw_gamma[B[0]])
+        e1.addr, e2.addr = A, B
+        if rng.random() < 0.5:
+            e1, e2 = e2, e1
+        out.append((e1, e2, kind))
+    return out
